@@ -63,7 +63,14 @@ func TestVerifC03(t *testing.T) {
 
 	// ---- (a) stepped histories: the harness is the scheduler --------------------------------------------
 	nHist := verifh.Pick(40, 900)
+	only := -1
+	if v := os.Getenv("VERIF_C03_ONLY"); v != "" { // replay of a single stepped history
+		fmt.Sscan(v, &only)
+	}
 	for h := 0; h < nHist; h++ {
+		if only >= 0 && h != only {
+			continue
+		}
 		r := verifh.Rand("c03step", h)
 		dir := freshDir(base)
 		st := openStepTable(dir, fileSystem)
@@ -128,6 +135,14 @@ func TestVerifC03(t *testing.T) {
 			if bad == "" {
 				bad = checkAll(st, written, sids, r, tsDomain)
 			}
+			if only >= 0 {
+				if snp := st.tst.currentSnapshot(); snp != nil {
+					for _, pw := range snp.parts {
+						fmt.Printf("REPLAY step %d %v: part %d mem=%v tagType=%v\n", step, trace[len(trace)-1:], pw.ID(), pw.mp != nil, pw.p.tagType)
+					}
+					snp.decRef()
+				}
+			}
 		}
 		s.Case(fmt.Sprintf("step/%d/%v", h, trace), maintenance > 0)
 		if conflict {
@@ -137,7 +152,22 @@ func TestVerifC03(t *testing.T) {
 			s.Sample(map[string]any{"engine": "measure", "history": trace, "rows": len(written)})
 		}
 		if bad != "" {
-			s.Violation(fmt.Sprintf("c03:measure:stepped:case-%d", h), map[string]any{"history": trace, "discrepancy": bad, "rows": len(written), "conflict": conflict})
+			var dump []string
+			if snp := st.tst.currentSnapshot(); snp != nil {
+				for _, pw := range snp.parts {
+					if pw.mp == nil {
+						dump = append(dump, fmt.Sprintf("part %d tagType=%v", pw.ID(), pw.p.tagType))
+					}
+				}
+				snp.decRef()
+			}
+			var xs []string
+			for _, w := range written {
+				if w.sid == 1 && w.ts == 7 {
+					xs = append(xs, fmt.Sprintf("batch %d ver %d uid %d xKind %d xInt %d", w.batch, w.version, w.uid, w.xKind, w.xInt))
+				}
+			}
+			s.Violation(fmt.Sprintf("c03:measure:stepped:case-%d", h), map[string]any{"history": trace, "discrepancy": bad, "rows": len(written), "conflict": conflict, "parts": dump, "writes_of_sid1_ts7": xs})
 		}
 		st.close()
 		os.RemoveAll(dir)
